@@ -1210,3 +1210,23 @@ Proof.
     apply (step_Inv _ _ (AppendVoteMap (wrapper rows)) (reachable ops Wf) Wv).
   - now apply Permutation_app_head.
 Qed.
+
+(* ------------------------------------------------------------------------------------------ *)
+(** * recompute_cardinality_param changes nothing on a consistent instance *)
+
+Lemma dedup_o_id l : NoDup l -> dedup_o l = l.
+Proof.
+  induction 1 as [|x l Hnin Hn IH]; simpl; [reflexivity|].
+  destruct (in_orders l x) eqn:E; [apply in_orders_iff in E; contradiction | now rewrite IH].
+Qed.
+
+Lemma recompute_noop s ms : Inv s ms -> recompute s = s.
+Proof.
+  intro I. unfold recompute.
+  assert (V : sum_N (map (mget (mult s)) (ords s)) = n_vot s).
+  { rewrite (inv_nvot _ _ I), <- (sum_table s ms I). f_equal.
+    rewrite <- (vote_map_eq s ms I) at 2. unfold vote_map. now rewrite map_map. }
+  assert (U : N.of_nat (length (dedup_o (ords s))) = n_uniq s).
+  { rewrite (dedup_o_id _ (Inv_nodup_ords s ms I)). symmetry. exact (inv_nuniq _ _ I). }
+  rewrite V, U. now destruct s.
+Qed.
